@@ -391,10 +391,7 @@ func H_C03_BeginBlock() {
 	if rt.Thorough() {
 		maxDec = 3
 	}
-	termDec := 0 // decisions carried by non-raised orders (not read by the blocker)
-	if rt.Thorough() {
-		termDec = 1
-	}
+	termDec := 0 // decisions carried by non-raised orders are not read by the blocker
 	var accepted, raised [2]enttypes.EnterpriseUndPurchaseOrder
 	for i := 0; i < na; i++ {
 		accepted[i] = anyOrder("a"+string(rune('0'+i)), ids[2*i], Addr(rt.Choose(2)), enttypes.StatusAccepted, termDec, nowSec)
@@ -403,8 +400,8 @@ func H_C03_BeginBlock() {
 	}
 	for i := 0; i < nr; i++ {
 		md := maxDec
-		if i == 1 && !rt.Thorough() {
-			md = 1
+		if i == 1 {
+			md = maxDec - 1 // quick: 2+1 decisions, thorough: 3+2
 		}
 		raised[i] = anyOrder("r"+string(rune('0'+i)), ids[2*i+1], Addr(1), enttypes.StatusRaised, md, nowSec)
 		_ = k.SetPurchaseOrder(ctx, raised[i])
